@@ -162,7 +162,7 @@ SPECS = {
         fam=dict(quick=[dict(n=3, ntypes=1, maxpars=(UNL,), maxws=(1, 2), backends=('fork', 'spawn', 'serial'),
                              cached='none', reqs='subsets', fails='singles', cofs=(True,)),
                         dict(n=3, ntypes=1, maxpars=(UNL,), maxws=(1, 2), backends=('fork', 'serial'),
-                             cached='all-subsets', reqs='rich', cofs=(True,), sample=600)],
+                             cached='all-subsets', reqs='rich', cofs=(True,), busts=(False, True), sample=800)],
                  thorough=dict(n=3, ntypes=1, maxpars=(UNL,), maxws=(1, 2, 3), backends=('fork', 'spawn', 'serial'),
                                cached='all-subsets', reqs='subsets', fails='all-subsets', cofs=(True,), sample=40000)),
         title='results held exactly while a direct dependent still needs them; nothing held at return'),
